@@ -91,13 +91,52 @@ fn check_input(r: &Report, i: &RTxIn) {
         // serialization hop of the PSET
         let bytes = elements::encode::serialize(&pset);
         let e = elements::encode::deserialize::<Pset>(&bytes).ok().map(|p| p.inputs()[0].issuance_ids());
-        (a, b, c, d, e, ex.map(|t| t == tx))
+        // alternative but legal PSET representations of the same issuance (another producer, an older version, a
+        // hand-built input): explicit all-zero nonce / entropy fields vs absent ones, explicit amount kept next to its
+        // commitment. The PSET input and the input of the transaction extracted from that very PSET must agree.
+        let mut alts: Vec<(String, (AssetId, AssetId), Option<(AssetId, AssetId)>)> = Vec::new();
+        let zero_nonce = lib_in.asset_issuance.asset_blinding_nonce == elements::secp256k1_zkp::ZERO_TWEAK;
+        let zero_entropy = lib_in.asset_issuance.asset_entropy == [0u8; 32];
+        for alt in 0..6usize {
+            let mut q = pset.clone();
+            {
+                let i0 = &mut q.inputs_mut()[0];
+                match alt {
+                    0 if zero_nonce => i0.issuance_blinding_nonce = Some(elements::secp256k1_zkp::ZERO_TWEAK),
+                    1 if zero_nonce => i0.issuance_blinding_nonce = None,
+                    2 if zero_entropy => i0.issuance_asset_entropy = Some([0u8; 32]),
+                    3 if zero_entropy => i0.issuance_asset_entropy = None,
+                    4 if i0.issuance_value_comm.is_some() => i0.issuance_value_amount = Some(1000),
+                    5 if i0.issuance_inflation_keys_comm.is_some() => i0.issuance_inflation_keys = Some(5),
+                    _ => continue,
+                }
+            }
+            let name = ["nonce=Some(0)", "nonce=None", "entropy=Some(0)", "entropy=None", "amount+commitment", "keys+commitment"][alt];
+            let pi = q.inputs()[0].issuance_ids();
+            let xi = q.extract_tx().ok().map(|t| t.input[0].issuance_ids());
+            alts.push((name.to_string(), pi, xi));
+        }
+        (a, b, c, d, e, ex.map(|t| t == tx), alts)
     });
     let t = |x: (AssetId, AssetId)| (x.0.to_byte_array(), x.1.to_byte_array());
     match res {
         Err(p) => r.violation(format!("panic/{}", kind), case(), p),
-        Ok((a, b, c, d, e, _same)) => {
+        Ok((a, b, c, d, e, _same, alts)) => {
             r.trace(1);
+            for (name, pi, xi) in alts {
+                r.trans(1);
+                match xi {
+                    None => r.violation(format!("alt-representation/extract-failed/{}/{}", name, kind), case(), "extract_tx failed on an alternative representation of the issuance"),
+                    Some(xi) => {
+                        if t(pi) != t(xi) {
+                            r.violation(format!("alt-representation/pset-input-vs-extracted-ids-differ/{}/{}", name, kind), case(), format!("pset input asset={} token={}; extracted input asset={} token={}", hex(&t(pi).0), hex(&t(pi).1), hex(&t(xi).0), hex(&t(xi).1)));
+                        } else if t(pi) != exp {
+                            r.violation(format!("alt-representation/ids-differ-from-derivation/{}/{}", name, kind), case(), "both views agree with each other but not with the reference derivation");
+                        }
+                        r.outcome(&format!("alt/{}", name));
+                    }
+                }
+            }
             if t(a) != exp {
                 r.violation(format!("txin-ids-differ-from-derivation/{}", kind), case(), format!("lib=({},{}) ref=({},{})", hex(&t(a).0), hex(&t(a).1), hex(&exp.0), hex(&exp.1)));
             }
@@ -279,7 +318,7 @@ pub fn run(r: &Report) {
     r.set_rule(
         "outpoints: 8 txid patterns x vout {0,1,2^30-1} (+ null outpoint) x contract hash / entropy 8 patterns x nonce {zero, non-zero} x \
          amount {explicit, confidential} x keys {null, explicit, confidential} x pegin flag, each in five representations (TxIn, \
-         pset::Input::from_txin, Pset::from_tx input, extracted tx input, PSET after a serialization hop) + the AssetId entry points; \
+         pset::Input::from_txin, Pset::from_tx input, extracted tx input, PSET after a serialization hop) + alternative legal PSET representations of the same issuance (nonce / entropy field absent vs explicit zero, explicit amount kept next to its commitment: PSET input vs the input extracted from that PSET) + the AssetId entry points; \
          JSON contracts: 1..4 top-level keys, nested object with 0..3 keys, all key permutations at both levels x 3 whitespace styles. \
          non-trivial = distinct input encodings / distinct JSON renderings",
     );
